@@ -116,6 +116,8 @@ ERR_MAP = [
     ("Number of traps and weights don't match", "weightCount"),
     ("All weights must be between 0 and 1", "weightRange"),
     ("don't match this register's coordinates", "layoutMismatch"),
+    ("The amount of 'trap_ids' must be equal to the number of atoms", "layoutMismatch"),
+    ("The RegisterLayout dimensionality is not the same", "layoutMismatch"),
 ]
 
 
